@@ -44,3 +44,30 @@ let ctx_scoped (bs : block list) : bool =
         List.iter (fun (a, x) -> if not (scoped d' a && scoped d' x) then ok := false) ds; d := d') bs;
   !ok
 
+
+(* random contexts: parameters and definition groups (definitions may refer to any variable in scope,
+   later members of their own group included) *)
+let random_ctx (r : Rng.t) : block list =
+  let nb = 1 + Rng.int r 3 in
+  let rec go k depth acc =
+    if k = 0 then List.rev acc
+    else
+      let closed_ty () = Rng.pick r [ TInt; TBool; TType; TPi (false, TInt, TInt) ] in
+      if Rng.bool r then
+        (* a parameter whose type is closed, or an earlier variable (valid where it is written) *)
+        let a = if depth > 0 && Rng.chance r 1 3 then TVar (nat_of_int (Rng.int r depth)) else closed_ty () in
+        go (k - 1) (depth + 1) (Param a :: acc)
+      else
+        let n = 1 + Rng.int r 2 in
+        let d' = depth + n in
+        let ds = List.init n (fun _ ->
+            let def = (match Rng.int r 5 with
+                | 0 -> TLit (z_of_int (Rng.int r 9))
+                | 1 -> TVar (nat_of_int (Rng.int r d'))
+                | 2 -> TBin (OSum, TVar (nat_of_int (Rng.int r d')), TLit (z_of_int 1))
+                | 3 -> TInt
+                | _ -> TLam (false, TInt, TVar (nat_of_int (Rng.int r (d' + 1))))) in
+            (closed_ty (), def)) in
+        go (k - 1) d' (Group ds :: acc) in
+  go nb 0 []
+
